@@ -164,7 +164,7 @@ fn run_loop_case(c: &LoopCase, big: &LoopDev, small: &LoopDev, rec: &mut CaseRec
 fn loop_case_strategy() -> impl Strategy<Value = LoopCase> {
     (
         prop_oneof![4 => Just(FlagSet::Neither), 2 => Just(FlagSet::ForceCreate), 2 => Just(FlagSet::SeedOutput), 1 => Just(FlagSet::Both)],
-        prop_oneof![5 => Just(ArchKind::Valid), 1 => Just(ArchKind::NotAnArchive), 1 => Just(ArchKind::HeaderBitFlip), 1 => Just(ArchKind::NoChunkerParams), 1 => Just(ArchKind::TruncatedHeader), 1 => Just(ArchKind::OverflowingChunkLocation), 1 => Just(ArchKind::RebuildIndexOutOfRange)],
+        prop_oneof![5 => Just(ArchKind::Valid), 1 => Just(ArchKind::NotAnArchive), 1 => Just(ArchKind::HeaderBitFlip), 1 => Just(ArchKind::NoChunkerParams), 1 => Just(ArchKind::TruncatedHeader), 1 => Just(ArchKind::OverflowingChunkLocation), 1 => Just(ArchKind::RebuildIndexOutOfRange), 1 => Just(ArchKind::UnknownMagicVersion)],
         prop_oneof![3 => Just(None), 1 => Just(Some(true)), 2 => Just(Some(false))],
         prop_oneof![2 => source_strategy(3, 600), 1 => Just(vec![Seg::Random { n: 900, seed: 3 }])],
         any::<u32>(),
@@ -210,6 +210,8 @@ pub enum ArchKind {
     OverflowingChunkLocation,
     /// valid checksum, a rebuild index pointing beyond the descriptors
     RebuildIndexOutOfRange,
+    /// a file magic of the right shape with an unknown version digit (`BITA2\0`, `\0BITA2`, ...), header checksum re-computed
+    UnknownMagicVersion,
 }
 #[derive(Clone, Copy, Debug, Serialize, Deserialize, PartialEq)]
 pub enum Cmd {
@@ -283,6 +285,19 @@ fn make_archive(kind: ArchKind, valid: &[u8], flip: u16) -> Vec<u8> {
             let n = d.chunk_descriptors.len() as u32;
             d.rebuild_order.push(n + (flip as u32 % 5));
         }),
+        ArchKind::UnknownMagicVersion => {
+            let mut a = valid.to_vec();
+            let digit = b"023456789"[flip as usize % 9];
+            if flip % 2 == 0 {
+                a[..6].copy_from_slice(&[b'B', b'I', b'T', b'A', digit, 0]);
+            } else {
+                a[..6].copy_from_slice(&[0, b'B', b'I', b'T', b'A', digit]);
+            }
+            // re-seal: the checksum covers the magic
+            let sum = crate::util::blake2b512(&a[..h.header_len - 64]);
+            a[h.header_len - 64..h.header_len].copy_from_slice(&sum);
+            a
+        }
         ArchKind::GarbageDictionary => {
             let db = vec![0xffu8; 40];
             let mut a = fmt::build_header_raw(false, db.len() as u64, &db, fmt::header_len_for(db.len()) as u64);
@@ -613,6 +628,7 @@ fn case_strategy() -> impl Strategy<Value = Case> {
             1 => Just(ArchKind::GarbageDictionary),
             2 => Just(ArchKind::OverflowingChunkLocation),
             1 => Just(ArchKind::RebuildIndexOutOfRange),
+            2 => Just(ArchKind::UnknownMagicVersion),
         ],
         prop_oneof![3 => Just(None), 1 => Just(Some(true)), 2 => Just(Some(false))],
         prop_oneof![
@@ -639,7 +655,7 @@ impl Prop for C14 {
     }
     fn meta(&self, _tier: Tier) -> Meta {
         Meta {
-            rule: "cases = the real CLI on the matrix {clone local, clone over HTTP, compress} x output {absent, regular file, block device, block device smaller than the source — by 1..200 bytes or by any amount — (both via the cfg(oll3_bita_verif) hook)} x flags {neither, --force-create, --seed-output, both} x archive {valid, random bytes, empty file, one flipped header bit, truncated header, valid checksum but no chunker parameters / unknown compression / unknown algorithm / garbage dictionary} x --verify-header {absent, matching, one bit off} x --seed {none, the output path itself (also spelled ./name, also next to another seed), another file, stdin}, with generated source and pre-existing content. Variant 'race': the command is held on its stdin (compress source / clone --seed -) while the harness creates the output path with O_EXCL; if that succeeds the output exists before the command opens it and the command must refuse. Whether a case is a refusal is decided by the specification table of the property (output exists without overwrite/in-place flag; header mismatch; invalid archive; device too small), not by the exit code. Oracle for refusals: exit != 0, output path content and length unchanged (or still absent for archive/header refusals); other files that a refused command creates or changes are counted in 'classes', not judged (the property speaks about the output). Non-trivial = refusal with non-empty pre-existing content; distinct by Blake2 of the canonical case; the matrix cells reached are listed in 'classes'.".into(),
+            rule: "cases = the real CLI on the matrix {clone local, clone over HTTP, compress} x output {absent, regular file, block device, block device smaller than the source — by 1..200 bytes or by any amount — (both via the cfg(oll3_bita_verif) hook)} x flags {neither, --force-create, --seed-output, both} x archive {valid, random bytes, empty file, one flipped header bit, truncated header, valid checksum but no chunker parameters / unknown compression / unknown algorithm / garbage dictionary / a magic of the right shape with an unknown version digit} x --verify-header {absent, matching, one bit off} x --seed {none, the output path itself (also spelled ./name, also next to another seed), another file, stdin}, with generated source and pre-existing content. Variant 'race': the command is held on its stdin (compress source / clone --seed -) while the harness creates the output path with O_EXCL; if that succeeds the output exists before the command opens it and the command must refuse. Whether a case is a refusal is decided by the specification table of the property (output exists without overwrite/in-place flag; header mismatch; invalid archive; device too small), not by the exit code. Oracle for refusals: exit != 0, output path content and length unchanged (or still absent for archive/header refusals); other files that a refused command creates or changes are counted in 'classes', not judged (the property speaks about the output). Non-trivial = refusal with non-empty pre-existing content; distinct by Blake2 of the canonical case; the matrix cells reached are listed in 'classes'.".into(),
             assumptions: vec!["archives that open correctly but fail later (corrupt chunk data) are not refusals and are outside C14".into(), "header-valid-but-inconsistent dictionaries that panic today (C15 known findings) are not used here".into()],
             ..Meta::default()
         }
